@@ -242,7 +242,7 @@ func propC16(c *Check) {
 			if p.R(eb).blockReach(epochSt[0].Block())[epochSt[0].Block()] {
 				c.Violated("R4", "epoch-once @ "+FuncKey(eb), p.InstrPos(epochSt[0]), "epoch increment inside a loop")
 			}
-			relRe := regexp.MustCompile(`^\(Relayer\.Set\((Relayer\.Get\(\)#0|\$\d)\)(‹\d+›)? == nil\)$`)
+			relRe := regexp.MustCompile(`^\(Relayer\.Set\(\*?(Relayer\.Get\(\)#0|\$\d)\)(‹\d+›)? == nil\)$`)
 			relSetOK := edgeSet(p.MatchEdges(eb, relRe))
 			if t, path := (&PathSearch{Fn: eb, From: qg[0], AvoidEdges: relSetOK, IsTarget: p.successTargetsFor(eb, relRe)}).Find(); t != nil {
 				c.Violated("R4", "relayer-stored-on-every-election @ "+FuncKey(eb), p.InstrPos(t), "an election path ends without storing the relayer", p.describePath(path)...)
